@@ -232,6 +232,23 @@ ROUND9 = {
  "C17": "REQ SendMsg error returns after the wait are under 'message still parked'; E5 cell modelling",
  "C20": "only the count ends a send loop with success; main calls Run(args[1:]) unconditionally before any exit",
 }
+# rule families added after seeded round 10 (DESIGN 8.5, round 10)
+ROUND10 = {
+ "C04": "who may re-queue a request (call sites of resendMessage: RemovePipe and the AfterFunc callback only)",
+ "C07": "allocator cursor written by Get only (from C13)",
+ "C08": "redial timer armed only where a redial is scheduled (timer table incl. Timer.Reset, from C14)",
+ "C09": "frame length buffers local to the call (from C15)",
+ "C10": "lists of closeable things emptied only where swept (type-keyed sweep detection, lazy creation, one frozen exception); lock-order graph (from C11)",
+ "C11": "unsubscribe prune shape and RESPONDENT context state (from C06, C05)",
+ "C12": "transport Dial stores nothing derived from an option field (value flow through composite literals and calls)",
+ "C13": "allocator cursor writers; hook-value rule over every core function (getter helpers, goroutine parameters); redial decision (from C14)",
+ "C14": "reconnect option ranges independent of each other (from C19)",
+ "C15": "frame length buffers local to Send/Recv (root of the PutUint64 / ReadFull buffer is an Alloc or MakeSlice of the function)",
+ "C16": "blocking select that sends to a pipe's queue has a receive arm on that pipe's close channel; option setters never answer 'wrong state' (from C19)",
+ "C17": "E5: pending send outcome follows loop-carried error merges; buffer-after-release (Body/Header slice read before Free, used after)",
+ "C19": "accepted-by-Set implies answered-by-Get for every transport endpoint pair (found D16); ipc owner/permission options applied after every successful bind (forward walk, error-nil side, through helper returns)",
+ "C20": "subscriptions precede Dial/Listen in Run (CFG precedence); E5 ownership run on macat (buffer-after-release)",
+}
 for k, (t, x) in EXTRA.items():
     tech, text, note, ref = CLAIMED[k]
     imp = IMPORTS.get(k)
@@ -239,6 +256,8 @@ for k, (t, x) in EXTRA.items():
     r8 = ROUND8.get(k)
     if ROUND9.get(k):
         r8 = (r8 + "; " if r8 else "") + "after round 9: " + ROUND9[k]
+    if ROUND10.get(k):
+        r8 = (r8 + "; " if r8 else "") + "after round 10: " + ROUND10[k]
     CLAIMED[k] = (tech + t + ("; shared mechanisms decided where they are anchored and imported: " + imp if imp else "") + ("; added after seeded rounds 6-7: " + r67 if r67 else "") + ("; added after seeded round 8: " + r8 if r8 else ""), text + x, note, ref)
 
 NOT_YET = "check not built yet (work in progress; planned static rules in DESIGN.md section 4)"
